@@ -22,10 +22,23 @@ ANCHOR_FILES = ['droop/election.py', 'droop/rules/wigm.py', 'droop/rules/wigm_pr
                 'droop/rules/qpq.py']
 
 
+def undeclared_of(run):
+    "the write-ins as the ballot file lists them (every [undeclared ...] item of the canonical text), not as the package read them"
+    if run.blt is None:
+        return {c.cid for c in run.E.C if c.isUndeclared}
+    import re
+    out = set()
+    for m in re.finditer(r'^\[undeclared ([0-9 ]*)\]$', run.blt, re.M):
+        out |= {int(t) for t in m.group(1).split()}
+    return out
+
+
 def electable_cids(run):
     E = run.E
     mpls = E.rule.name == 'mpls'
-    return [c.cid for c in E.C if c.state != 'withdrawn' and not (mpls and c.isUndeclared)]
+    und = undeclared_of(run) if mpls else set()
+    wd = set(run.profile.withdrawn)
+    return [c.cid for c in E.C if c.cid not in wd and c.cid not in und]
 
 
 def check(run, opts):
